@@ -881,12 +881,23 @@ void init_binaries () {
        * the config_id to ensure that binaries are recompiled when the
        * simul_efun definitions change.
        */
+      config_id = 0;
       if (CONFIG_STR(__SIMUL_EFUN_FILE__))
         {
+          /* The setting is an object name ("/secure/simul_efun.c": relative to the
+           * mudlib directory, which is our working directory, the ".c" optional),
+           * not a path in the file system.  Make the source file name out of it the
+           * way load_object() does when init_simul_efun() loads it. */
           struct stat st;
-          if (0 == stat (CONFIG_STR(__SIMUL_EFUN_FILE__), &st))
+          char path[PATH_MAX];
+
+          if (strip_name (CONFIG_STR(__SIMUL_EFUN_FILE__), path, sizeof (path) - 2))
             {
-              config_id = (uint64_t)st.st_mtime;
+              strcat (path, ".c");
+              if (0 == stat (path, &st))
+                {
+                  config_id = (uint64_t)st.st_mtime;
+                }
             }
         }
       debug_message ("{}\tusing #pragma save_binary with data directory %s", CONFIG_STR(__SAVE_BINARIES_DIR__));
